@@ -43,6 +43,10 @@ class _Canon(ast.NodeTransformer):
 
     def visit_Compare(self, node):
         self.generic_visit(node)
+        # C7: `a > b` -> `b < a`, `a >= b` -> `b <= a` (one spelling for an order comparison)
+        if len(node.ops) == 1 and isinstance(node.ops[0], (ast.Gt, ast.GtE)):
+            flipped = ast.Lt() if isinstance(node.ops[0], ast.Gt) else ast.LtE()
+            return ast.copy_location(ast.Compare(left=node.comparators[0], ops=[flipped], comparators=[node.left]), node)
         if len(node.ops) == 1 and isinstance(node.ops[0], (ast.Eq, ast.NotEq)) and _is_const_like(node.left) and not _is_const_like(node.comparators[0]):
             return ast.copy_location(ast.Compare(left=node.comparators[0], ops=node.ops, comparators=[node.left]), node)
         return node
